@@ -220,21 +220,46 @@ func (bmachj *Bondmachine_json) Dejsoner() *Bondmachine {
 	result.Links = bmachj.Links
 	result.Domains = make([]*procbuilder.Machine, len(bmachj.Domains))
 	for i, machj := range bmachj.Domains {
+		if machj == nil {
+			panic("loading bondmachine: domain " + strconv.Itoa(i) + " is null")
+		}
 		result.Domains[i] = machj.Dejsoner()
 	}
 	result.Shared_objects = make([]Shared_instance, len(bmachj.Shared_objects))
 	for i, so := range bmachj.Shared_objects {
-		// TODO loading checks missing
 		for _, shr := range Allshared {
 			if inst, ok := shr.Instantiate(so); ok {
-				//              loaded = true
 				result.Shared_objects[i] = inst
 				break
 			}
 		}
-
+		if result.Shared_objects[i] == nil {
+			panic("loading bondmachine: unknown shared object \"" + so + "\"")
+		}
 	}
 	result.Shared_links = bmachj.Shared_links
+	// A damaged file must fail here, loudly, not yield a machine that has
+	// silently lost an opcode, a shared object or a bond
+	if len(result.Links) != len(result.Internal_inputs) {
+		panic("loading bondmachine: " + strconv.Itoa(len(result.Links)) + " links for " + strconv.Itoa(len(result.Internal_inputs)) + " internal inputs")
+	}
+	for _, l := range result.Links {
+		if l < -1 || l >= len(result.Internal_outputs) {
+			panic("loading bondmachine: link to internal output " + strconv.Itoa(l) + " which does not exist")
+		}
+	}
+	for _, d := range result.Processors {
+		if d < 0 || d >= len(result.Domains) {
+			panic("loading bondmachine: processor on domain " + strconv.Itoa(d) + " which does not exist")
+		}
+	}
+	for _, sl := range result.Shared_links {
+		for _, s := range sl {
+			if s < 0 || s >= len(result.Shared_objects) {
+				panic("loading bondmachine: link to shared object " + strconv.Itoa(s) + " which does not exist")
+			}
+		}
+	}
 	return result
 }
 
